@@ -11,6 +11,8 @@ import json
 import os
 
 VERIF_DIR = os.path.dirname(os.path.dirname(os.path.abspath(__file__)))
+# the tree under test: /repo for every registered command; tools/mutcheck.sh points it at a scratch worktree
+REPO_DIR = os.environ.get("ASV_REPO", "/repo").rstrip("/")
 
 # Set by the worker before analysis / replay.
 PARAMS: dict = {}
